@@ -717,6 +717,10 @@ class Spec:
     def excluded(self, x, pad=None, rpad=None):
         return None
 
+    def known(self, why):
+        """signature of the known finding an (F) clause stands for, if `why` names one"""
+        return None
+
     def instances(self, rng, quick):
         return []
 
@@ -814,6 +818,10 @@ def run_spec(ctx, spec, harvested, seen_cls, fail_cls, excluded_log):
         elif why is not None:
             excluded_log[f"{nm}: {why}"] += 1
             ctx.hist("payload_oracle", f"{nm}: excluded-by-WF:{why}")
+            if spec.known(why):
+                ctx.fail(spec.known(why), f"{spec.pyname or nm}: {why}",
+                         {"class": f"{K.__module__}.{K.__name__}", "kwargs": spec.write_kw(v, pad), "bytes": hx(w[1]), "repr": _short(toks, 1500)},
+                         obs, "equal structure (token form) and identical second tobytes()")
         else:
             fail_cls[spec.pyname or nm] += 1
             kind = "read-raises" if r0[0] != "ok" else ("reread-differs" if not obs["reread_equal"] else "rewrite-differs")
@@ -1531,6 +1539,224 @@ def unit3_witnesses(ctx):
             ctx.disagree("witness outer_glow_*_not_roundtrip does not replay on the real code", {"case": what, "read": r[:2] if r[0] == "err" else "ok"})
 
 
+# ---------------------------------------------------------------------------------------------
+# unit 4: patterns.py
+# ---------------------------------------------------------------------------------------------
+def _P():
+    import importlib
+    return importlib.import_module("psd_tools.psd.patterns")
+
+
+PATTERN_KNOWN = "C01/none-vs-empty/pattern-color-table-empty"
+
+
+def vma_tokens(x):
+    iw = x.is_written
+    if isinstance(iw, bool):
+        iw = int(iw)
+    if x.depth is None:
+        comp = getattr(x.compression, "value", x.compression)
+        if x.rectangle is not None or x.pixel_depth is not None or comp != 0 or x.data != b"":
+            raise NotRep("VirtualMemoryArray with depth None but other content set")
+        return [t_nat(iw), "0"]
+    return [t_nat(iw), "1", t_nat(x.depth), *t_list(list(x.rectangle), lambda n: [t_nat(n)]), t_nat(x.pixel_depth), t_nat(x.compression),
+            t_bytes(x.data)]
+
+
+def vma_excluded(x):
+    return "unwritten-array-with-content" if (not x.is_written and x.depth is not None) else None
+
+
+def vmal_tokens(x):
+    return [t_nat(x.version), *t_list(list(x.rectangle), lambda n: [t_nat(n)]), *t_list(list(x.channels), vma_tokens)]
+
+
+def vmal_excluded(x):
+    if x.version != 3:
+        return "version-rejected-by-assert"
+    for c in x.channels:
+        if vma_excluded(c):
+            return vma_excluded(c)
+    return None
+
+
+def pattern_tokens(x):
+    try:
+        pid = x.pattern_id.encode("ascii")
+    except (UnicodeError, AttributeError):
+        raise NotRep("pattern_id is not ASCII text")
+    ct = x.color_table
+    return [t_nat(x.version), t_nat(x.image_mode), *t_list(list(x.point), lambda z: [t_int(z)]), *t_str(x.name), hx(pid),
+            *t_opt(ct, lambda rows: t_list(list(rows), lambda r: t_list(list(r), lambda n: [t_nat(n)]))), *vmal_tokens(x.data)]
+
+
+def pattern_excluded(x):
+    C = _C()
+    if x.version != 1:
+        return "version-rejected-by-assert"
+    if has_pair(x.name):
+        return "adjacent-surrogate-pair (C19)"
+    indexed = x.image_mode == C.ColorMode.INDEXED
+    if indexed and (x.color_table is None or len(x.color_table) != 256):
+        return "indexed-without-256-entry-table"
+    if not indexed and x.color_table is not None:
+        return "(F) empty-color-table" if len(x.color_table) == 0 else "table-without-indexed-mode"
+    return vmal_excluded(x.data)
+
+
+def gen_vmas(rng):
+    P, C = _P(), _C()
+    rect = lambda: tuple(rng.choice([0, 1, 7, 2 ** 32 - 1]) for _ in range(4))
+    out = [P.VirtualMemoryArray(), P.VirtualMemoryArray(is_written=1), P.VirtualMemoryArray(is_written=2 ** 32 - 1)]
+    for comp in C.Compression:
+        for n in (0, 1, 5, 40):
+            out.append(P.VirtualMemoryArray(rng.choice([1, True, 7]), rng.choice([1, 8, 16, 32]), rect(), rng.choice([0, 8, 65535]), comp,
+                                            bytes(rng.randrange(256) for _ in range(n))))
+    return out
+
+
+def gen_vmals(rng, n):
+    P = _P()
+    vmas = gen_vmas(rng)
+    out = []
+    for i in range(n):
+        k = rng.choice([2, 2, 3, 5, 26])
+        out.append(P.VirtualMemoryArrayList(3, tuple(rng.choice([0, 3, 2 ** 32 - 1]) for _ in range(4)),
+                                            [copy.deepcopy(rng.choice(vmas)) for _ in range(k)]))
+    return out
+
+
+def gen_patterns(rng, n):
+    P, C = _P(), _C()
+    vmals = gen_vmals(rng, n)
+    out = []
+    modes = list(C.ColorMode)
+    for i in range(n):
+        mode = modes[i % len(modes)]
+        ct = [tuple(rng.randrange(256) for _ in range(3)) for _ in range(256)] if mode == C.ColorMode.INDEXED else None
+        out.append(P.Pattern(1, mode, (rng.choice([0, -1, 32767, -32768, 64]), rng.choice([0, 1, 200])), rng.choice(STRINGS[:13]),
+                             rng.choice(["", "a", "0d8c2f1e-aaaa-11aa-9ddf-bb5bc1a6e7f1", "x" * 255]), ct, copy.deepcopy(vmals[i])))
+    return out
+
+
+class VMASpec(Spec):
+    name = "VirtualMemoryArray"
+    offsets = (0, 3, 4, 7, 8, 12, 28, 30, 31)
+
+    def K(self):
+        return _P().VirtualMemoryArray
+
+    def tokens(self, x):
+        return " ".join(vma_tokens(x))
+
+    def excluded(self, x, pad=None, rpad=None):
+        return vma_excluded(x)
+
+    def instances(self, rng, quick):
+        P = _P()
+        out = [("boundary", x) for x in gen_vmas(rng)]
+        out += [("excluded", P.VirtualMemoryArray(0, 8, (0, 0, 1, 1), 8, 0, b"\x01")),
+                ("breaking", P.VirtualMemoryArray(1, 8, (0, 0, 1), 8, 0, b"")), ("breaking", P.VirtualMemoryArray(1, 2 ** 32, (0, 0, 1, 1), 8, 0, b"")),
+                ("breaking", P.VirtualMemoryArray(2 ** 32)), ("breaking", P.VirtualMemoryArray(1, 8, (0, 0, 1, 1), 65536, 0, b""))]
+        return out
+
+
+class VMALSpec(Spec):
+    name = "VirtualMemoryArrayList"
+    offsets = (0, 3, 4, 8, 24, 28, 32)
+
+    def K(self):
+        return _P().VirtualMemoryArrayList
+
+    def tokens(self, x):
+        return " ".join(vmal_tokens(x))
+
+    def excluded(self, x, pad=None, rpad=None):
+        return vmal_excluded(x)
+
+    def instances(self, rng, quick):
+        P = _P()
+        out = [("generated", x) for x in gen_vmals(rng, 6 if quick else 120)]
+        two = [P.VirtualMemoryArray(), P.VirtualMemoryArray()]
+        out += [("boundary", P.VirtualMemoryArrayList(3, (0, 0, 0, 0), copy.deepcopy(two))),
+                ("excluded", P.VirtualMemoryArrayList(2, (0, 0, 0, 0), copy.deepcopy(two))),
+                ("breaking", P.VirtualMemoryArrayList(3, (0, 0, 0, 0), [P.VirtualMemoryArray()])),
+                ("breaking", P.VirtualMemoryArrayList(3, (0, 0, 0, 0), [])),
+                ("breaking", P.VirtualMemoryArrayList(3, (0, 0, 0), copy.deepcopy(two)))]
+        return out
+
+
+class PatternSpec(Spec):
+    name = "Pattern"
+    offsets = (0, 3, 4, 7, 8, 12, 16, 20)
+
+    def K(self):
+        return _P().Pattern
+
+    def tokens(self, x):
+        return " ".join(pattern_tokens(x))
+
+    def excluded(self, x, pad=None, rpad=None):
+        return pattern_excluded(x)
+
+    def known(self, why):
+        return PATTERN_KNOWN if why.startswith("(F)") else None
+
+    def instances(self, rng, quick):
+        P, C = _P(), _C()
+        pats = gen_patterns(rng, 9 if quick else 150)
+        out = [("generated", x) for x in pats]
+        base = lambda: copy.deepcopy(next(q for q in pats if q.image_mode != C.ColorMode.INDEXED))
+        e = base(); e.color_table = []
+        out.append(("excluded", e))
+        e = base(); e.version = 2
+        out.append(("excluded", e))
+        e = base(); e.color_table = [(1, 2, 3)]
+        out.append(("excluded", e))
+        e = base(); e.image_mode = C.ColorMode.INDEXED; e.color_table = None
+        out.append(("excluded", e))
+        e = base(); e.name = PAIR_STRINGS[0]
+        out.append(("excluded", e))
+        e = base(); e.point = (32768, 0)
+        out.append(("breaking", e))
+        e = base(); e.pattern_id = "y" * 256
+        out.append(("breaking", e))
+        return out
+
+
+class PatternsSpec(Spec):
+    name = "Patterns"
+    at_end = True
+    offsets = (0, 3, 4, 8, 12)
+
+    def K(self):
+        return _P().Patterns
+
+    def tokens(self, x):
+        return " ".join(t_list(list(x), pattern_tokens))
+
+    def excluded(self, x, pad=None, rpad=None):
+        for it in x:
+            if pattern_excluded(it):
+                return pattern_excluded(it)
+        return None
+
+    def instances(self, rng, quick):
+        K = self.K()
+        pats = gen_patterns(rng, 6 if quick else 60)
+        out = [("boundary", K([])), ("boundary", K([copy.deepcopy(pats[0])]))]
+        for i in range(3 if quick else 40):
+            out.append(("generated", K([copy.deepcopy(rng.choice(pats)) for _ in range(rng.choice([1, 2, 3]))])))
+        return out
+
+
+def unit4_specs():
+    return [VMASpec(), VMALSpec(), PatternSpec(), PatternsSpec()]
+
+
+UNIT4_CLASSES = ["VirtualMemoryArray", "VirtualMemoryArrayList", "Pattern", "Patterns"]
+
+
 def harvest_by_class(files):
     """every element instance of the parsed fixtures, by exact class: {class: [instances]}"""
     import codec_common as cc
@@ -1594,7 +1820,7 @@ def unit2_witnesses(ctx):
 # ---------------------------------------------------------------------------------------------
 # the check
 # ---------------------------------------------------------------------------------------------
-MODEL_CLASSES = list(UNIT1_CLASSES) + UNIT2_CLASSES + UNIT3_CLASSES
+MODEL_CLASSES = list(UNIT1_CLASSES) + UNIT2_CLASSES + UNIT3_CLASSES + UNIT4_CLASSES
 
 
 def run(ctx):
@@ -1626,6 +1852,7 @@ def _run(ctx):
     unit2_witnesses(ctx)
     run_units(ctx, unit3_specs(ctx.rng, ctx.quick), sink, seen_cls, fail_cls, excluded_log, "unit3")
     unit3_witnesses(ctx)
+    run_units(ctx, unit4_specs(), sink, seen_cls, fail_cls, excluded_log, "unit4")
     seen_cls["MetadataSetting"] += seen_cls.get("MetadataSettings", 0)
     seen_cls["Annotation"] += seen_cls.get("Annotations", 0)
     ctx.extra["payload_points_excluded_by_WF (information; format-excluded, see notes)"] = dict(excluded_log)
@@ -1692,6 +1919,17 @@ def _run(ctx):
         "bevel_version3_lost_real_colours_before_fix keeps the old reader's behaviour as a witness.",
         "Outside the effect models: a colour the writer needs but that is None (self.native_color.write on None raises "
         "AttributeError, not struct.error) - such values are not generated.",
+    ]
+    ctx.notes += [
+        "Unit 4 (psd/patterns.py) is modelled and proved: VirtualMemoryArray (not written / written without content / geometry + "
+        "opaque pixel bytes read with fp.read(length - 23)), VirtualMemoryArrayList (num_channels + 2 arrays in a length block), "
+        "Pattern (unicode name, ASCII pascal id, the 256-entry colour table of INDEXED patterns), Patterns (one padding-4 length block "
+        "per pattern, while is_readable(fp, 4): at the end of a stream): virtual_memory_array(_list)_roundtrip, pattern_roundtrip, "
+        "patterns_roundtrip_at_end, the _rewrite_identical and _written_is_length theorems, tagged_block_patterns; ties unit4_tied "
+        "(ColorMode.INDEXED, the `if` tests of Pattern / VirtualMemoryArray read and write, registry) and unit4_calls_tied. WF: "
+        "version asserts, enum converters, an unwritten array has no content, the colour table matches the mode; one (F) clause - "
+        "the empty table of a non-indexed pattern is re-read as None (known finding " + PATTERN_KNOWN + ", witness "
+        "pattern_empty_color_table_not_roundtrip). Pixel compression of the channel bytes is C04's.",
     ]
     ctx.assumptions += [
         "payload classes: doubles are compared as 64-bit patterns; pascal strings (Annotation) are their MacRoman bytes (C19)",
